@@ -341,7 +341,16 @@ class Ceremony:
             fail("C10", "Q2", "unsigned_tx_has_scriptsig", f"{who} emitted a PSBT whose unsigned transaction has a non-empty scriptSig")
 
     def store(self, node):
-        raw = node.psbt.serialize()
+        try:
+            raw = node.psbt.serialize()
+        except SimDeadlock:
+            raise
+        except Exception as e:
+            if not node.tainted:
+                fail("C10", "Q1", "serialize_raised", f"{node.name} could not serialise its PSBT although every message it accepted was untampered: {type(e).__name__}: {e}")
+            # a node that accepted a corrupted message may hold records it cannot write back (garbage in): it keeps its last stored state
+            self.tr.probe("tainted_node_cannot_serialise")
+            return node.durable
         node.durable = raw
         node.history.append(raw)
         if not node.tainted:
